@@ -155,6 +155,35 @@ Proof.
   rewrite Fi, N, Tv. reflexivity.
 Qed.
 
+(** "-fvalue" inside a task's argument list (repair dd95c66): the head is not a
+    flag of the task but a value flag of the initial context *)
+Lemma glued_presplit_task i0 done cur fl got tok v i r :
+  clean_flag tok = true -> String.length tok = 2 ->
+  v <> "" -> contains_char "=" v = false ->
+  find_flag (rc_args cur) tok = None ->
+  find_flag (rc_args i0) tok = Some i -> nth_error (rc_args i0) i = Some r ->
+  takes_value (r_spec r) = true ->
+  presplit (MS i0 done cur fl got) (tok ++ v) = Ok (tok, [v]).
+Proof.
+  intros C L Nv Ev Fc Fi N Tv.
+  unfold clean_flag in C. rewrite !andb_true_iff, negb_true_iff in C.
+  destruct C as [[[D E] Lg] Nd].
+  assert (Nl : starts_with "--" tok = false).
+  { destruct (starts_with "--" tok) eqn:X; [|reflexivity].
+    rewrite (starts_with_same_length "--" tok X L) in Nd. discriminate Nd. }
+  unfold presplit, is_flag, is_long_flag. cbn [m_unparsed MS].
+  rewrite (starts_with_dash_app _ _ D). cbn [andb].
+  rewrite contains_char_app, E, Ev. cbn [orb].
+  rewrite (starts_with_app_keep "--" tok v) by (rewrite L; simpl; lia). rewrite Nl. cbn [negb andb].
+  assert (Ln : Nat.ltb 2 (String.length (tok ++ v)) = true).
+  { rewrite len_app, L. destruct v; [congruence|]. reflexivity. }
+  rewrite Ln. cbn [andb].
+  assert (T2 : take 2 (tok ++ v) = tok) by (rewrite <- L; apply take_app).
+  assert (D2 : drop 2 (tok ++ v) = v) by (rewrite <- L; apply drop_app).
+  rewrite T2, D2, MS_cur, Fc, MS_init, Fi, N, Tv.
+  cbn [m_st MS pstate_eqb negb andb]. reflexivity.
+Qed.
+
 (** ** One core option: its description and its tokens *)
 Inductive cform := CBare | CNext | CEq | CGlued.
 
@@ -181,9 +210,9 @@ Definition apply_copt (args : list rarg) (o : copt) : list rarg :=
   end.
 
 (** admissible core option w.r.t. the current state [args] of the initial
-    context; [front]: written before the first task (glued form allowed);
+    context (the glued form is admissible at every placement since repair dd95c66);
     [names]: the task names *)
-Definition copt_ok (front : bool) (cs : list ctxspec) (args : list rarg) (o : copt) : bool :=
+Definition copt_ok (cs : list ctxspec) (args : list rarg) (o : copt) : bool :=
   clean_flag (co_tok o) &&
   match find_flag args (co_tok o), nth_error args (co_idx o) with
   | Some i, Some r =>
@@ -201,7 +230,7 @@ Definition copt_ok (front : bool) (cs : list ctxspec) (args : list rarg) (o : co
                 end
              && (negb (a_optional (r_spec r)) || negb (is_ctx_name cs (co_val o)))
              && match f with
-                | CGlued => front && Nat.eqb (String.length (co_tok o)) 2
+                | CGlued => Nat.eqb (String.length (co_tok o)) 2
                             && negb (String.eqb (co_val o) "")
                             && negb (contains_char "=" (co_val o))
                 | _ => true
@@ -210,10 +239,10 @@ Definition copt_ok (front : bool) (cs : list ctxspec) (args : list rarg) (o : co
   | _, _ => false
   end.
 
-Fixpoint copts_ok (front : bool) (cs : list ctxspec) (args : list rarg) (os : list copt) : bool :=
+Fixpoint copts_ok (cs : list ctxspec) (args : list rarg) (os : list copt) : bool :=
   match os with
   | [] => true
-  | o :: rest => copt_ok front cs args o && copts_ok front cs (apply_copt args o) rest
+  | o :: rest => copt_ok cs args o && copts_ok cs (apply_copt args o) rest
   end.
 
 (** not shadowed by task context [c], not a task name *)
@@ -242,7 +271,7 @@ Qed.
 
 Lemma inert_init_MS i0 done cur i r' got :
   nth_error (rc_args i0) i <> None -> r_raw r' = true ->
-  (akind_eqb (a_kind (r_spec r')) KList && negb got) = false ->
+  (needs_value r' && negb got) = false ->
   inert (MS (upd_init i0 i r') done cur (Some (0, i)) got).
 Proof.
   intros N R K. unfold inert. cbn [m_flag MS]. exists r'. split; [|split; [exact R | exact K]].
@@ -253,7 +282,7 @@ Qed.
 
 Lemma inert_init_MI i0 i r' got :
   nth_error (rc_args i0) i <> None -> r_raw r' = true ->
-  (akind_eqb (a_kind (r_spec r')) KList && negb got) = false ->
+  (needs_value r' && negb got) = false ->
   inert (MI (upd_init i0 i r') (Some (0, i)) got).
 Proof.
   intros N R K. unfold inert. cbn [m_flag MI]. exists r'. split; [|split; [exact R | exact K]].
@@ -264,8 +293,8 @@ Qed.
 
 (** ** Runs of one core option *)
 
-Lemma copt_ok_parts front cs args o :
-  copt_ok front cs args o = true ->
+Lemma copt_ok_parts cs args o :
+  copt_ok cs args o = true ->
   exists r,
     clean_flag (co_tok o) = true /\ find_flag args (co_tok o) = Some (co_idx o) /\
     nth_error args (co_idx o) = Some r /\ String.eqb (arg_name (r_spec r)) "help" = false /\
@@ -277,7 +306,7 @@ Lemma copt_ok_parts front cs args o :
         (a_kind (r_spec r) = KInt -> intlike (co_val o) = true) /\
         (a_optional (r_spec r) = true -> is_ctx_name cs (co_val o) = false) /\
         match f with
-        | CGlued => front = true /\ String.length (co_tok o) = 2 /\ co_val o <> "" /\
+        | CGlued => String.length (co_tok o) = 2 /\ co_val o <> "" /\
                     contains_char "=" (co_val o) = false
         | _ => True
         end
@@ -314,7 +343,7 @@ Proof.
     destruct (V ltac:(discriminate) H) as (A&B&C0&D&E&F0). repeat split; auto.
   - rewrite andb_true_iff in H. destruct H as [H G].
     destruct (V ltac:(discriminate) H) as (A&B&C0&D&E&F0).
-    rewrite !andb_true_iff, !negb_true_iff in G. destruct G as [[[G1 G2] G3] G4].
+    rewrite !andb_true_iff, !negb_true_iff in G. destruct G as [[G2 G3] G4].
     apply Nat.eqb_eq in G2. repeat split; auto.
     intros X. rewrite X in G3. discriminate.
 Qed.
@@ -340,14 +369,14 @@ Lemma copt_steps_task i0 done cur fl got o :
   inert (MS i0 done cur fl got) -> has_missing cur = false -> has_missing i0 = false ->
   find_flag (rc_args cur) (co_tok o) = None -> find_inverse (rc_args cur) (co_tok o) = None ->
   is_ctx_name cs (co_tok o) = false ->
-  copt_ok false cs (rc_args i0) o = true ->
+  copt_ok cs (rc_args i0) o = true ->
   exists fl' got',
     let i0' := with_args i0 (apply_copt (rc_args i0) o) in
     steps p (MS i0 done cur fl got) (spell_copt o) (MS i0' done cur fl' got') /\
     inert (MS i0' done cur fl' got') /\ has_missing i0' = false.
 Proof.
   intros I Hm Hi F FI Nn Ok'. rewrite <- Pcs in Nn.
-  destruct (copt_ok_parts _ _ _ _ Ok') as [r [C [Fi [N [Nh Hf]]]]].
+  destruct (copt_ok_parts _ _ _ Ok') as [r [C [Fi [N [Nh Hf]]]]].
   unfold spell_copt, apply_copt, copt_input. rewrite N.
   destruct (co_form o) eqn:Fo.
   - destruct Hf as [Kb Ninc].
@@ -401,20 +430,43 @@ Proof.
     split; [eapply steps_pushed; eauto|]. split.
     + apply inert_init_MS; [congruence | exact Rw' | rewrite andb_false_r; reflexivity].
     + apply has_missing_upd_init; assumption.
-  - destruct Hf as (_&_&_&_&_&_&Fr&_). discriminate Fr.
+  - (* glued, inside a task: repair dd95c66 *)
+    destruct Hf as (Tv&Rw&Nl&Pl&Hint&Hopt&L2&Nv&Ne).
+    destruct (value_set r (co_val o) Tv Nl Hint) as [r' [SV [Sp [Rw' Nn']]]]. rewrite SV.
+    exists (Some (0, co_idx o)), true.
+    assert (S1 : step p (MS i0 done cur fl got) (co_tok o ++ co_val o)
+                 = Ok (MS i0 done cur (Some (0, co_idx o)) false, [co_val o])).
+    { unfold step, bind.
+      rewrite (glued_presplit_task i0 done cur fl got _ _ _ r C L2 Nv Ne F Fi N Tv),
+        (inert_rollback _ _ _ I).
+      cbn [fst snd]. rewrite (handle_core_value_flag p i0 done cur fl got _ _ r I Hm F FI Nn Fi N Tv Nh).
+      reflexivity. }
+    assert (S2 : step p (MS i0 done cur (Some (0, co_idx o)) false) (co_val o)
+                 = Ok (MS (upd_init i0 (co_idx o) r') done cur (Some (0, co_idx o)) true, [])).
+    { rewrite (step_init_value p (MS i0 done cur (Some (0, co_idx o)) false) cur i0 (co_idx o) r r' (co_val o) eq_refl eq_refl
+                 (MS_cur _ _ _ _ _) eq_refl eq_refl N Tv).
+      - rewrite put_arg_init_MS. reflexivity.
+      - cbn [m_got MS]. rewrite Rw. destruct (_ && _); reflexivity.
+      - exact Rw.
+      - exact Pl.
+      - intros O. split; [exact Hm | rewrite Pcs; auto].
+      - exact SV. }
+    split; [eapply steps_pushed; eauto|]. split.
+    + apply inert_init_MS; [congruence | exact Rw' | rewrite andb_false_r; reflexivity].
+    + apply has_missing_upd_init; assumption.
 Qed.
 
 (** before the first task *)
 Lemma copt_steps_front i0 fl got o :
   inert (MI i0 fl got) -> has_missing i0 = false ->
-  copt_ok true cs (rc_args i0) o = true ->
+  copt_ok cs (rc_args i0) o = true ->
   exists fl' got',
     let i0' := with_args i0 (apply_copt (rc_args i0) o) in
     steps p (MI i0 fl got) (spell_copt o) (MI i0' fl' got') /\
     inert (MI i0' fl' got') /\ has_missing i0' = false.
 Proof.
   intros I Hi Ok'.
-  destruct (copt_ok_parts _ _ _ _ Ok') as [r [C [Fi [N [Nh Hf]]]]].
+  destruct (copt_ok_parts _ _ _ Ok') as [r [C [Fi [N [Nh Hf]]]]].
   unfold spell_copt, apply_copt, copt_input. rewrite N.
   assert (Cc : cur_ctx (MI i0 (Some (0, co_idx o)) false) = Some i0) by reflexivity.
   assert (Val : forall r', takes_value (r_spec r) = true -> r_raw r = false ->
@@ -451,7 +503,7 @@ Proof.
       unfold set_value, new_value. rewrite Ninc, Kb. cbn [cast_kind negb].
       rewrite put_arg_init_MI. reflexivity. }
     split; [apply steps_one; exact S|]. split.
-    + apply inert_init_MI; [congruence | reflexivity | cbn [r_spec]; rewrite Kb; reflexivity].
+    + apply inert_init_MI; [congruence | reflexivity | rewrite needs_value_bool; [reflexivity | exact Kb]].
     + apply has_missing_set_core. exact Hi.
   - destruct Hf as (Tv&Rw&Nl&Pl&Hint&Hopt&_).
     destruct (value_set r (co_val o) Tv Nl Hint) as [r' [SV [Sp [Rw' Nn']]]]. rewrite SV.
@@ -474,7 +526,7 @@ Proof.
     split; [eapply steps_pushed; [exact S1 | apply Val; auto]|]. split.
     + apply inert_init_MI; [congruence | exact Rw' | rewrite andb_false_r; reflexivity].
     + apply has_missing_upd_init; assumption.
-  - destruct Hf as (Tv&Rw&Nl&Pl&Hint&Hopt&_&L2&Nv&Ne).
+  - destruct Hf as (Tv&Rw&Nl&Pl&Hint&Hopt&L2&Nv&Ne).
     destruct (value_set r (co_val o) Tv Nl Hint) as [r' [SV [Sp [Rw' Nn']]]]. rewrite SV.
     exists (Some (0, co_idx o)), true.
     assert (S1 : step p (MI i0 fl got) (co_tok o ++ co_val o)
@@ -503,7 +555,7 @@ Lemma copts_steps_task done cur : forall os i0 fl got,
   (forall o, In o os -> find_flag (rc_args cur) (co_tok o) = None /\
                         find_inverse (rc_args cur) (co_tok o) = None /\
                         is_ctx_name cs (co_tok o) = false) ->
-  copts_ok false cs (rc_args i0) os = true ->
+  copts_ok cs (rc_args i0) os = true ->
   exists fl' got',
     let i0' := with_args i0 (apply_copts (rc_args i0) os) in
     steps p (MS i0 done cur fl got) (flat_map spell_copt os) (MS i0' done cur fl' got') /\
@@ -529,7 +581,7 @@ Qed.
 
 Lemma copts_steps_front : forall os i0 fl got,
   inert (MI i0 fl got) -> has_missing i0 = false ->
-  copts_ok true cs (rc_args i0) os = true ->
+  copts_ok cs (rc_args i0) os = true ->
   exists fl' got',
     let i0' := with_args i0 (apply_copts (rc_args i0) os) in
     steps p (MI i0 fl got) (flat_map spell_copt os) (MI i0' fl' got') /\
@@ -553,61 +605,26 @@ Qed.
 End ManyOptions.
 
 (** tokens of admissible core options are never the remainder sentinel *)
-Lemma spell_copt_clean front cs args o :
-  copt_ok front cs args o = true -> Forall (fun t => t <> "--") (spell_copt o).
+Lemma spell_copt_clean cs args o :
+  copt_ok cs args o = true -> Forall (fun t => t <> "--") (spell_copt o).
 Proof.
-  intros Ok'. destruct (copt_ok_parts _ _ _ _ Ok') as [r [C [_ [_ [_ Hf]]]]].
+  intros Ok'. destruct (copt_ok_parts _ _ _ Ok') as [r [C [_ [_ [_ Hf]]]]].
   unfold spell_copt. destruct (co_form o).
   - repeat constructor. apply clean_not_ddash; exact C.
   - destruct Hf as (_&_&_&Pl&_). repeat constructor; [apply clean_not_ddash; exact C|].
     intros E. rewrite E in Pl. discriminate Pl.
   - repeat constructor. apply eq_form_not_ddash.
-  - destruct Hf as (_&_&_&_&_&_&_&L2&Nv&_). repeat constructor. intros E.
+  - destruct Hf as (_&_&_&_&_&_&L2&Nv&_). repeat constructor. intros E.
     assert (String.length (co_tok o ++ co_val o) = 2) by (rewrite E; reflexivity).
     rewrite len_app, L2 in H. destruct (co_val o); [congruence | simpl in H; lia].
 Qed.
 
-Lemma spell_copts_clean front cs : forall os args,
-  copts_ok front cs args os = true -> Forall (fun t => t <> "--") (flat_map spell_copt os).
+Lemma spell_copts_clean cs : forall os args,
+  copts_ok cs args os = true -> Forall (fun t => t <> "--") (flat_map spell_copt os).
 Proof.
   induction os as [|o os IH]; intros args Ok'; [constructor|].
   cbn [copts_ok] in Ok'. apply andb_true_iff in Ok'. destruct Ok' as [Oo Or].
   cbn [flat_map]. apply Forall_app. split; [eapply spell_copt_clean; eauto | eapply IH; eauto].
-Qed.
-
-(** the glued form is only a front spelling; elsewhere the same option is
-    written with "=" *)
-Definition unglue (o : copt) : copt :=
-  match co_form o with
-  | CGlued => mkCopt (co_tok o) (co_idx o) CEq (co_val o)
-  | _ => o
-  end.
-
-Lemma apply_unglue args o : apply_copt args (unglue o) = apply_copt args o.
-Proof. unfold unglue, apply_copt, copt_input. destruct (co_form o) eqn:Fo; cbn [co_idx co_form co_val]; rewrite ?Fo; reflexivity. Qed.
-
-Lemma copt_ok_unglue cs args o :
-  copt_ok true cs args o = true -> copt_ok false cs args (unglue o) = true.
-Proof.
-  unfold unglue, copt_ok. destruct (co_form o) eqn:Fo; cbn [co_tok co_idx co_form co_val]; try rewrite Fo; auto.
-  rewrite !andb_true_iff. intros [C H]. split; [exact C|].
-  destruct (find_flag args (co_tok o)); [|discriminate].
-  destruct (nth_error args (co_idx o)); [|discriminate].
-  rewrite !andb_true_iff in *. destruct H as [H1 [H2 _]]. tauto.
-Qed.
-
-Lemma copts_ok_unglue cs : forall os args,
-  copts_ok true cs args os = true -> copts_ok false cs args (map unglue os) = true.
-Proof.
-  induction os as [|o os IH]; intros args H; [reflexivity|].
-  cbn [copts_ok map] in *. apply andb_true_iff in H. destruct H as [Ho Hr].
-  rewrite (copt_ok_unglue _ _ _ Ho), apply_unglue. simpl. apply IH. exact Hr.
-Qed.
-
-Lemma apply_copts_unglue : forall os args, apply_copts args (map unglue os) = apply_copts args os.
-Proof.
-  induction os as [|o os IH]; intros args; [reflexivity|].
-  cbn [apply_copts fold_left map]. rewrite apply_unglue. apply IH.
 Qed.
 
 (** ** The placement theorems for whole core prefixes *)
@@ -620,7 +637,7 @@ Let i0 := init_ctx ic.
 (** the core options first (any documented form), then the invocation *)
 Theorem core_prefix_front os inv :
   simple_guard cs ic inv = true ->
-  copts_ok true cs (rc_args i0) os = true ->
+  copts_ok cs (rc_args i0) os = true ->
   exists res,
     parser_parse cs (Some ic) false (flat_map spell_copt os ++ spell cs inv) = Ok res /\
     pr_ctxs res = with_args i0 (apply_copts (rc_args i0) os) :: map (final_ctx cs) inv /\
@@ -643,14 +660,13 @@ Proof.
   rewrite map_map. unfold expected. auto.
 Qed.
 
-(** the same options (glued ones written with "=") after any complete item of
-    any call *)
+(** the same options, same spellings, after any complete item of any call *)
 Theorem core_prefix_placed os calls1 t asn items1 items2 calls2 c :
   let inv := calls1 ++ mkCall t asn (items1 ++ items2) :: calls2 in
   simple_guard cs ic inv = true ->
   nth_error cs t = Some c ->
   forallb (copt_free cs c) os = true ->
-  copts_ok false cs (rc_args i0) os = true ->
+  copts_ok cs (rc_args i0) os = true ->
   exists res,
     parser_parse cs (Some ic) false
       (spell cs calls1 ++ (asn :: flat_map (spell_item c) items1)
@@ -736,31 +752,28 @@ Proof.
 Qed.
 
 (** Placement equivalence for a whole prefix of core options -- boolean flags
-    and value-taking options, spaced / "=" / (in front) glued: written before
-    the first task, or -- glued ones respelled with "=" -- after any complete
-    item of any call, the parse result is literally the same. *)
+    and value-taking options, spaced / "=" / glued: written before the first
+    task, or -- in the very same spelling -- after any complete item of any
+    call, the parse result is literally the same. *)
 Corollary core_prefix_placement_equiv os calls1 t asn items1 items2 calls2 c :
   let inv := calls1 ++ mkCall t asn (items1 ++ items2) :: calls2 in
   simple_guard cs ic inv = true ->
   nth_error cs t = Some c ->
   forallb (copt_free cs c) os = true ->
-  copts_ok true cs (rc_args i0) os = true ->
+  copts_ok cs (rc_args i0) os = true ->
   exists res,
     parser_parse cs (Some ic) false (flat_map spell_copt os ++ spell cs inv) = Ok res /\
     parser_parse cs (Some ic) false
       (spell cs calls1 ++ (asn :: flat_map (spell_item c) items1)
-       ++ flat_map spell_copt (map unglue os) ++ flat_map (spell_item c) items2 ++ spell cs calls2)
+       ++ flat_map spell_copt os ++ flat_map (spell_item c) items2 ++ spell cs calls2)
       = Ok res /\
     map obs_of_ctx (tl (pr_ctxs res)) = expected cs inv.
 Proof.
   intros inv G N Free Ok'.
   destruct (core_prefix_front os inv G Ok') as [r1 [P1 [C1 [O1 [U1 M1]]]]].
-  assert (Free' : forallb (copt_free cs c) (map unglue os) = true).
-  { rewrite forallb_forall in *. intros o Ho. apply in_map_iff in Ho. destruct Ho as [o' [<- Ho']].
-    specialize (Free o' Ho'). unfold copt_free, unglue in *. destruct (co_form o'); exact Free. }
-  destruct (core_prefix_placed (map unglue os) calls1 t asn items1 items2 calls2 c G N Free'
-              (copts_ok_unglue cs os _ Ok')) as [r2 [P2 [C2 [O2 [U2 M2]]]]].
-  fold inv in C2. rewrite apply_copts_unglue in C2.
+  destruct (core_prefix_placed os calls1 t asn items1 items2 calls2 c G N Free Ok')
+    as [r2 [P2 [C2 [O2 [U2 M2]]]]].
+  fold inv in C2.
   assert (r1 = r2) by (destruct r1, r2; cbn in *; congruence).
   subst r2. exists r1. auto.
 Qed.
